@@ -477,3 +477,54 @@ def check_c06(tier, t0):
 
 
 CHECKS["C06"] = check_c06
+
+
+# ------------------------------------------------------------------------------------------------
+# C05  field formats
+# ------------------------------------------------------------------------------------------------
+def run_fieldformats(wd, tier):
+    from common import run_tlc, tlc_require_clean, extract_json_lines
+    cfg = "FieldFormats_thorough.cfg" if tier == "thorough" else "FieldFormats_quick.cfg"
+    mc = run_tlc("MC_FieldFormats.tla", cfg, wd, timeout=3000)
+    if mc["violated"]:
+        raise ToolError("oracle-sanity invariant %s violated in FieldFormats.tla (a format's typical content is not in its language)" % mc["violated"])
+    tlc_require_clean(mc, "FieldFormats")
+    cases = os.path.join(wd, "field_cases.ndjson")
+    n = extract_json_lines(mc["out_path"], cases)
+    os.remove(mc["out_path"])
+    return cases, n, mc, cfg
+
+
+def check_c05(tier, t0):
+    from common import workdir
+    wd = workdir("C05-%s" % tier)
+    cases, n, mc, cfg = run_fieldformats(wd, tier)
+    out = os.path.join(wd, "out.json")
+    run_harness(["fields", "--cases", cases, "--out", out])
+    s = json.load(open(out))
+    vio = [{"sig": v["sig"], "replay": v["replay"]} for v in s["violations"]]
+    log("[C05] %d contents over %d field types (%d in the documented language), %d mismatch signatures" %
+        (s["evaluated"], s["fields"], s["in_language"], len(vio)))
+    cov = {
+        "states": mc["distinct"], "transitions": mc["generated"], "traces_validated_against_impl": 0,
+        "evaluations": s["evaluated"], "distinct_nontrivial": s["distinct_nontrivial"],
+        "rule": "per field format: the typical content and every content deviating from it in at most Budget components "
+                "(min / max / max+1 / min-1 lengths, foreign characters at first / last position, absent / present optional parts, "
+                "alternative branches, line counts 1 / max / max+1, blank and trailing lines, missing / wrong / doubled literals, "
+                "invalid dates, times, offsets, currencies, BIC shapes, code words, trailing characters and lines); the verdict of "
+                "each content is computed by the generic matcher InLanguage; non-trivial = every content but the typical one",
+        "samples": s["samples"] or [{}],
+        "fields_covered": s["fields"],
+        "fields_not_covered": ["19", "36", "37H (amount-only: C06)", "23", "23B", "25P", "28D", "50F", "52B-57B", "61", "77T",
+                               "option enums (C14)"],
+        "multi_deviation_cases_subsumed": s.get("subsumed_multi_deviation", 0),
+        "panics_noted_for_C07": s["panics_noted_for_C07"],
+        "exhaustive": True, "exhaustive_scope": "the generator's shape space of %s" % cfg,
+    }
+    assumptions = ["reference formats = the library's own documented Format lines (spec/FieldFormats.tla), SR2025 where silent",
+                   "character class x = the set documented in swift_utils::parse_swift_chars (ASCII letters and digits), CR/LF only as line separators",
+                   "accepted contents must reappear character by character (in order) in the serialised field; canonical additions are allowed"]
+    return report("C05", tier, "model_checking", vio, cov, assumptions, t0)
+
+
+CHECKS["C05"] = check_c05
